@@ -516,7 +516,7 @@ where
                 cx.bump(S::rejected_inserts);
                 rejected = true;
                 match &r {
-                    Err(Pk::Overflow) => {
+                    Err(p) if *p != Pk::Injected => {
                         cx.bump(S::lib_panics);
                         self.lib_panicked = true;
                     }
@@ -1109,11 +1109,13 @@ where
                         cx.bump(S::reached_full);
                     }
                 }
-                Err(Pk::Overflow) => {
+                Err(p) if p != Pk::Injected => {
                     cx.bump(S::lib_panics);
                     self.lib_panicked = true;
                     if !liar {
-                        cx.chk(P16.and(Prop::C03).and(Prop::C07), overflow_at.is_some(), "spurious-overflow", || format!("extend panicked although the result has at most {N} distinct elements"));
+                        // C03 owns it when the set was (or became) full and present elements kept arriving
+                        let owner = if overflow_at.is_some() || want.len() == N { P16.and(Prop::C03).and(Prop::C07) } else { P16.and(Prop::C07) };
+                        cx.chk(owner, overflow_at.is_some(), "spurious-overflow", || format!("extend panicked although the result has at most {N} distinct elements"));
                     }
                     // partial effect: everything before the overflow point was inserted
                     if let Some(at) = overflow_at {
@@ -1124,10 +1126,7 @@ where
                         }
                     }
                 }
-                Err(p) => {
-                    let owner = if overflow_at.is_none() { P16.and(Prop::C03).and(Prop::C07) } else { P16 };
-                    fault = unexpected(cx, liar, owner, &p)
-                }
+                Err(p) => fault = unexpected(cx, liar, P16, &p),
             }
             self.groups |= 1;
         }
@@ -1290,8 +1289,10 @@ where
         if len > N && overflow_at.is_none() {
             cx.bump(S::bulk_longer_than_n);
         }
+        let mut repeat_after_full = false;
         if overflow_at.is_none() && want.len() == N && N > 0 {
             let full_at = want.iter().map(|e| e.1).max().unwrap_or(0);
+            repeat_after_full = keys.iter().enumerate().any(|(i, _)| i > full_at);
             if keys.iter().enumerate().any(|(i, k)| i > full_at && *k == keys[0]) {
                 cx.bump(S::bulk_repeat_after_full);
             }
@@ -1374,16 +1375,14 @@ where
                 }
                 self.slots[1] = Some(slot);
             }
-            Err(Pk::Overflow) => {
+            Err(p) if p != Pk::Injected => {
                 cx.bump(S::lib_panics);
                 if !liar {
-                    cx.chk(P16.and(Prop::C03), overflow_at.is_some(), "spurious-overflow", || format!("{} panicked although only {} distinct elements were supplied to a set of {N}", names[sub], want.len()));
+                    let owner = if overflow_at.is_some() || repeat_after_full { P16.and(Prop::C03) } else { P16 };
+                    cx.chk(owner, overflow_at.is_some(), "spurious-overflow", || format!("{} panicked although only {} distinct elements were supplied to a set of {N}", names[sub], want.len()));
                 }
             }
-            Err(p) => {
-                let owner = if overflow_at.is_none() { P16.and(Prop::C03) } else { P16 };
-                fault |= unexpected(cx, liar, owner, &p)
-            }
+            Err(p) => fault |= unexpected(cx, liar, P16, &p),
         }
         self.note_fault(fault, true);
         self.cur_target = 1;
@@ -1436,8 +1435,8 @@ where
                 cx.log(|| format!("overflow probe extend[{w}]([{k}]) on a full set -> {r:?}"));
                 cx.bump(S::overflow_entry_points);
                 match r {
-                    Err(Pk::Overflow) => cx.bump(S::lib_panics),
                     Err(Pk::Injected) => fault = true,
+                    Err(_) => cx.bump(S::lib_panics),
                     other => {
                         if !liar {
                             cx.chk(P03, false, "overflow-not-rejected", || format!("extend of a new element into a full set of {N}: expected a panic, got {other:?}"));
